@@ -290,17 +290,23 @@ impl AnimSection {
 
         // Determine the bone count
         let header_size = 16; // "AFID" + id + start + end
-        let remaining_size = size - header_size;
+        let remaining_size = size.checked_sub(header_size).ok_or_else(|| {
+            M2Error::AnimFormatError(format!(
+                "ANIM section size {size} is smaller than its {header_size}-byte header"
+            ))
+        })?;
         let bone_count = remaining_size / 4; // Each bone animation reference is 4 bytes
 
         // Read bone animation offsets
-        let mut bone_offsets = Vec::with_capacity(bone_count as usize);
+        let mut bone_offsets =
+            Vec::with_capacity(crate::common::bounded_capacity(bone_count as usize));
         for _ in 0..bone_count {
             bone_offsets.push(reader.read_u32_le()?);
         }
 
         // Read bone animations
-        let mut bone_animations = Vec::with_capacity(bone_count as usize);
+        let mut bone_animations =
+            Vec::with_capacity(crate::common::bounded_capacity(bone_count as usize));
 
         for &offset in &bone_offsets {
             if offset > 0 {
@@ -314,12 +320,16 @@ impl AnimSection {
                 let translation = if (flags & 0x1) != 0 {
                     let timestamp_count = reader.read_u32_le()?;
 
-                    let mut timestamps = Vec::with_capacity(timestamp_count as usize);
+                    let mut timestamps = Vec::with_capacity(crate::common::bounded_capacity(
+                        timestamp_count as usize,
+                    ));
                     for _ in 0..timestamp_count {
                         timestamps.push(reader.read_u32_le()?);
                     }
 
-                    let mut translations = Vec::with_capacity(timestamp_count as usize);
+                    let mut translations = Vec::with_capacity(crate::common::bounded_capacity(
+                        timestamp_count as usize,
+                    ));
                     for _ in 0..timestamp_count {
                         translations.push(C3Vector::parse(reader)?);
                     }
@@ -336,12 +346,16 @@ impl AnimSection {
                 let rotation = if (flags & 0x2) != 0 {
                     let timestamp_count = reader.read_u32_le()?;
 
-                    let mut timestamps = Vec::with_capacity(timestamp_count as usize);
+                    let mut timestamps = Vec::with_capacity(crate::common::bounded_capacity(
+                        timestamp_count as usize,
+                    ));
                     for _ in 0..timestamp_count {
                         timestamps.push(reader.read_u32_le()?);
                     }
 
-                    let mut rotations = Vec::with_capacity(timestamp_count as usize);
+                    let mut rotations = Vec::with_capacity(crate::common::bounded_capacity(
+                        timestamp_count as usize,
+                    ));
                     for _ in 0..timestamp_count {
                         rotations.push(Quaternion::parse(reader)?);
                     }
@@ -358,12 +372,16 @@ impl AnimSection {
                 let scaling = if (flags & 0x4) != 0 {
                     let timestamp_count = reader.read_u32_le()?;
 
-                    let mut timestamps = Vec::with_capacity(timestamp_count as usize);
+                    let mut timestamps = Vec::with_capacity(crate::common::bounded_capacity(
+                        timestamp_count as usize,
+                    ));
                     for _ in 0..timestamp_count {
                         timestamps.push(reader.read_u32_le()?);
                     }
 
-                    let mut scalings = Vec::with_capacity(timestamp_count as usize);
+                    let mut scalings = Vec::with_capacity(crate::common::bounded_capacity(
+                        timestamp_count as usize,
+                    ));
                     for _ in 0..timestamp_count {
                         scalings.push(C3Vector::parse(reader)?);
                     }
@@ -768,7 +786,8 @@ impl AnimParser {
         // Parse animation entries
         reader.seek(SeekFrom::Start(header.anim_entry_offset as u64))?;
 
-        let mut entries = Vec::with_capacity(header.id_count as usize);
+        let mut entries =
+            Vec::with_capacity(crate::common::bounded_capacity(header.id_count as usize));
         for _ in 0..header.id_count {
             entries.push(AnimEntry::parse(reader)?);
         }
